@@ -65,6 +65,11 @@ CLAIMED = {
    "Base images with 2-3 log files (records partly enacted; two records in one file; recycled file; stale generation; multi-column) are damaged in every listed way; each distinct image must open without panic, equal S_j with enacted <= j <= last record whose bytes and predecessors' are intact, and keep accepting commits.",
    "Quick: bit flips of bit 0 and 7 of every byte, aligned windows; thorough: every bit, every window offset, more bases. Known findings (recovery trusts the first log's record id: F-C13-oldest-pending-log-vanishes, F-C13-first-log-id-damaged, F-C13-stale-generation-reapplied) are reported, not failed. CRC collisions outside the bound.",
    "DESIGN.md §3 E2 family 4, §4 C13"),
+ "C16": ("faultmc", "fault_enumeration",
+   "exhaustive fault-index enumeration: for every edge of the bounded state graph and every j, persistent failure of all file operations from the j-th of that step on (libc interposition) and of all I/O sites from the j-th on (the crate's own injector)",
+   "Every (state, event in {P,R,F,E,K,reopen}, injector, j) is executed from scratch: no panic; a failed syscall makes the step return an error (never Ok); the stored background error refuses later commits without trace; reads equal the committed state; drop under the fault terminates; after the fault is gone reopen shows S_k with k >= commits synced before the failure.",
+   "Stepping mode (no threads). Failures are persistent (as quantified). A power loss following an I/O failure is not combined here.",
+   "DESIGN.md §3 E2 family 5, §4 C16"),
 }
 
 NOT_YET = {}
@@ -106,6 +111,7 @@ def main():
             {"name": "seqmc-sweep", "path": "/verif/mc/src/props/c06.rs", "serves_properties": ["C06"], "kind_free_text": "exhaustive finite sweeps (lengths, overwrite sequences) over the real Db"},
             {"name": "pagemc", "path": "/verif/mc/src/props/c19.rs", "serves_properties": ["C19"], "kind_free_text": "exhaustive enumeration of index pages x keys x start positions against both page-search implementations"},
             {"name": "crashmc", "path": "/verif/mc/src/crash.rs, /verif/mc/src/crashmc.rs", "serves_properties": ["C02", "C03", "C12", "C13"], "kind_free_text": "I/O trace recording by libc interposition + mmap store hook, shadow file system, exhaustive crash-image enumeration with recovery oracle"},
+            {"name": "faultmc", "path": "/verif/mc/src/faultmc.rs", "serves_properties": ["C16"], "kind_free_text": "persistent I/O failure injected at every file-operation index of every step of every edge"},
             {"name": "seqmc", "path": "/verif/mc", "serves_properties": sorted([k for k, v in CLAIMED.items() if "seqmc" in v[0]]),
              "kind_free_text": "bounded exhaustive graph search over histories x pipeline-stage schedules of the real Db in stepping mode, reference models, pipeline model PM in lock-step"},
         ],
